@@ -81,3 +81,6 @@ Fixpoint assoc_bytes {A} (l : list (bytes * A)) (k : bytes) : option A :=
   end.
 
 Definition byte_to_N (b : byte) : N := Byte.to_N b.
+
+Definition bytes_len (s : bytes) : nat := length s.
+Definition z_of_byte (b : byte) : Z := Z.of_N (Byte.to_N b).
